@@ -70,6 +70,13 @@ def run(rep):
                 bad = [x for x in uses if not has_cond(conds(fi, x), is_secret, False)]
                 marks = [s for s in ast.walk(loop) if isinstance(s, ast.Assign) and isinstance(s.value, ast.Constant) and
                          has_cond(conds(fi, s), is_secret, True)]
+                # the name that is tested is the resource's real name: the key variable is never re-bound in the loop
+                rebinds = [x for x in ast.walk(loop) if isinstance(x, ast.Name) and x.id == kv and isinstance(x.ctx, ast.Store) and
+                           not any(x is y for y in ast.walk(loop.target))]
+                rep.check('R18.a', fkey(fi, 'key variable intact'), not rebinds,
+                          "the 'secret' test looks at the resource name itself" if not rebinds else
+                          'the key variable %s is re-bound inside the loop (truncated / transformed) before the "secret" test: the decision is '
+                          'made on something else than the resource name' % kv, meta, rebinds[0] if rebinds else loop)
                 ok = not bad and len(marks) >= 1 and bool(uses)
                 rep.check('R18.a', fkey(fi, 'items() loop'), ok,
                           "the value variable %s is read only where ('secret' in %s) is false; the other branch stores the constant %r"
@@ -86,6 +93,21 @@ def run(rep):
         rep.check('R18.a', fkey(fi, n) + '#' + str(reads.index((fi, n))), kind is not None,
                   'read of .resources is %s' % kind if kind else
                   '%s reads resource *values* (%s): secrets would be disclosed' % (fi.qualname, short(par)), meta, n)
+    # arbitrary host objects reachable through signatures: the defaults of endpoint parameters are used by *name* only
+    # (their values are user objects the non-dev JSON view cannot be assumed to encode, and may be sensitive)
+    n_def = 0
+    for fi in meta.functions.values():
+        dvars = set(norm(s.targets[0]) for s in stmts_of(fi.node) if isinstance(s, ast.Assign) and isinstance(s.value, ast.Call)
+                    and call_tail(s.value) == 'get_defaults_dict')
+        for n in walk_body(fi.node):
+            if isinstance(n, ast.Name) and n.id in dvars and isinstance(n.ctx, ast.Load):
+                n_def += 1
+                par = meta.parents.get(n)
+                key_only = (isinstance(par, ast.Compare) and n in par.comparators and isinstance(par.ops[0], (ast.In, ast.NotIn))) or \
+                    (isinstance(par, ast.Attribute) and par.attr == 'keys') or (isinstance(par, ast.Call) and call_name(par) in ('len', 'sorted', 'list', 'set'))
+                rep.check('R18.a', fkey(fi, 'defaults use ' + norm(par)[:50]), key_only, 'parameter defaults are consulted by name only' if key_only else
+                          '%s reads the *value* of an endpoint parameter default (%s) into the meta context: an arbitrary host object reaches the '
+                          'JSON view (encoder failure => 500 for the whole view, or disclosure)' % (fi.qualname, short(par)), meta, n)
     # contexts never hold framework objects themselves
     ctx_funcs = [fi for q, fi in meta.functions.items() if fi.name in ('get_context',) or q in
                  ('get_route_infos', 'get_resource_info', 'get_mw_infos', 'get_endpoint_info', 'get_render_info', 'get_route_arg_info')]
